@@ -2,6 +2,7 @@ import NurbsVerif.Lemmas.EvalSpec
 import NurbsVerif.Lemmas.Grid
 import NurbsVerif.Lemmas.AssemblePoint
 import NurbsVerif.Lemmas.AssembleWF
+import NurbsVerif.Lemmas.SpanREval
 
 /-!
 # C01  Evaluated points equal the B-spline / NURBS definition
@@ -186,8 +187,10 @@ theorem domain_span_found (p : ℕ) (Ul : List K) (n : ℕ) (hU : KvWF p Ul n) (
 /-- **Under `KnotsOk` the span found on the closed domain is never empty** (the fact behind `domain_span_found`, stated
     for an arbitrary knot function): non-decreasing knots, `n ≥ p + 1`, non-empty last span `U_{n-1} < U_n`, `u ∈ [U_p,
     U_n]` give `U_k < U_{k+1}` for `k = findSpanLinear p U n u` – so no division by zero occurs in A2.2 on the span found
-    (`Geomdl.findSpanLinear_dom`).  Every evaluation theorem of this file assumes `KnotsOk` (through `CurveWF`, `SurfWF`,
-    `KvWF`); knot vectors with an EMPTY last domain span are outside the model, see the next theorem. -/
+    (`Geomdl.findSpanLinear_dom`).  Every evaluation theorem of this file about `curvePoint` / `surfacePoint` / `volumePoint`
+    (span search WITHOUT the step back of the F-01b repair) assumes `KnotsOk` (through `CurveWF`, `SurfWF`, `KvWF`); knot
+    vectors with an EMPTY last domain span are covered by the theorems about the evaluation through the REPAIRED search
+    (`curvePointR`, …; section "repaired span search" at the end of this file). -/
 theorem span_found_nonempty_of_knotsOk (p : ℕ) (U : ℕ → K) (n : ℕ) (hU : KnotsOk p U n) (u : K)
     (h1 : U p ≤ u) (h2 : u ≤ U n) :
     U (findSpanLinear p U n u) < U (findSpanLinear p U n u + 1) :=
@@ -198,9 +201,10 @@ theorem span_found_nonempty_of_knotsOk (p : ℕ) (U : ℕ → K) (n : ℕ) (hU :
     domain `[1, 4]`: at `u = 4 = U_5` the model returns span `4` and `U_4 = U_5`, so `KnotsOk` fails exactly in its
     `last` field and the model's A2.2 would divide by zero (`x / 0 = 0` in Lean: the model "evaluates" to `(0, 0)`).  The
     pinned code raised `ZeroDivisionError` there; the repaired `find_span_linear` / `find_span_binsearch` step back to
-    the last non-empty span `3` (left limit).  The model does not have that step back: such knot vectors are outside
-    it, the driver ops answer ERR at such a parameter and the exact oracle alone checks the repaired behaviour
-    (harness streams `empty-last-span`). -/
+    the last non-empty span `3` (left limit).  `findSpanLinear` / `curvePoint` do not have that step back (the driver ops
+    `span lin`, `ceval`, … answer ERR at such a parameter); the literal model of the repaired search is `findSpanLinearR`
+    and the evaluation through it `curvePointR` (`Model/SpanR.lean`, ops `span linr`, `cevalr`, …), compared with the
+    repaired code at such parameters by the harness streams `empty-last-span`: see `curve_eval_repaired_witness_F01b`. -/
 theorem span_found_empty_without_knotsOk :
     findSpanLinear 2 (fnOf ([0,0,1,2,4,4,5,5] : List ℚ)) 5 4 = 4 ∧
     fnOf ([0,0,1,2,4,4,5,5] : List ℚ) 4 = fnOf ([0,0,1,2,4,4,5,5] : List ℚ) 5 ∧
@@ -393,5 +397,157 @@ example : (List.range 4).map (fun i => cdb (fnOf ([0,0,0,1/2,1,1,1] : List ℚ))
     (List.range 4).map (fun i => cdbSpan (fnOf ([0,0,0,1/2,1,1,1] : List ℚ)) 3 2 i 1) = [0, 0, 0, 1] := by
   decide +kernel
 
+/-! ## Evaluation through the REPAIRED span search (F-01b): every valid knot vector, whole closed domain
+
+`curvePointR` / `surfacePointR` / `volumePointR` (`Model/SpanR.lean`) are `evaluate_single` with the repaired
+`find_span_linear` (`findSpanLinearR`: after the first loop the index steps back while the span is empty), the same A3.1 /
+A3.5 / volume loops on the span found.  The correspondence check compares them with `evaluate_single` of the repaired code on
+ordinary shapes and on shapes with an EMPTY last domain span, `u = U_n` included (ops `cevalr`, `sevalr`, `vevalr`).
+`DomOk p U n`: non-decreasing knots, `n ≥ p + 1`, `U_p < U_n` – NO condition on the last span (`KnotsOk` implies it). -/
+
+/-- **Curves, closed domain, EVERY valid knot vector** (the last domain span may be empty): for `u ∈ [U_p, U_n]` the span `k`
+    the repaired search finds is a legal index, NOT EMPTY and contains `u` (so A2.2 does not divide by zero on it), and every
+    coordinate of the evaluated point is the sum over ALL control points of the Cox–de Boor recursion of span `k` (`cdbSpan`,
+    = what A2.2 computes on span `k`, `span_basis_eq_basis_function`) times the control point.  For `u < U_n` span `k` is the
+    half-open interval of `u` and the sum is the Cox–de Boor sum itself (`cdb`); for `u = U_n` span `k` is the LAST NON-EMPTY
+    span of the domain (right end `U_n`, all later spans empty): the left-limit convention, now without assuming that the
+    last span `n - 1` is that span. -/
+theorem curve_eval_repaired_closed (p d : ℕ) (U : ℕ → K) (P : List (List K)) (hU : DomOk p U P.length) (hP : NetOk d P)
+    (u : K) (h1 : U p ≤ u) (h2 : u ≤ U P.length) (j : ℕ) :
+    p ≤ findSpanLinearR p U P.length u ∧ findSpanLinearR p U P.length u < P.length ∧
+    U (findSpanLinearR p U P.length u) < U (findSpanLinearR p U P.length u + 1) ∧
+    U (findSpanLinearR p U P.length u) ≤ u ∧ u ≤ U (findSpanLinearR p U P.length u + 1) ∧
+    (curvePointR p U P u).getD j 0
+      = ∑ i ∈ range P.length, cdbSpan U (findSpanLinearR p U P.length u) p i u * (ptsGet P i).getD j 0 ∧
+    (u < U P.length →
+      (curvePointR p U P u).getD j 0 = ∑ i ∈ range P.length, cdb U p i u * (ptsGet P i).getD j 0) ∧
+    (u = U P.length → U (findSpanLinearR p U P.length u + 1) = U P.length ∧
+      ∀ i, findSpanLinearR p U P.length u < i → i < P.length → U i = U (i + 1)) := by
+  obtain ⟨a1, a2, a3, a4, a5, _, a7⟩ := findSpanLinearR_dom p U P.length u hU.pn hU.mono hU.dom h1 h2
+  exact ⟨a1, a2, a3, a4, a5, curvePointR_eq_cdbSpan p U P u d j hU.pn hP,
+    fun h => curvePointR_eq_cdb p U P u d j hU.mono hU.pn hP h1 h, a7⟩
+
+/-- **Rational curves, closed domain, every valid knot vector**: with positive weights the weight of the evaluated
+    homogeneous point is positive and the projected point is (Σ N_i w_i P_i) / (Σ N_i w_i) coordinatewise, `N_i` the
+    recursion of the (non-empty) span the repaired search finds. -/
+theorem rational_curve_eval_repaired_closed (p d : ℕ) (U : ℕ → K) (Pw : List (List K)) (hU : DomOk p U Pw.length)
+    (hP : NetOk (d+1) Pw) (hwt : ∀ i, i < Pw.length → 0 < (ptsGet Pw i).getD d 0) (u : K)
+    (h1 : U p ≤ u) (h2 : u ≤ U Pw.length) (j : ℕ) (hj : j < d) :
+    0 < (curvePointR p U Pw u).getD d 0 ∧
+    (project (curvePointR p U Pw u)).getD j 0
+      = (∑ i ∈ range Pw.length, cdbSpan U (findSpanLinearR p U Pw.length u) p i u * (ptsGet Pw i).getD j 0)
+        / (∑ i ∈ range Pw.length, cdbSpan U (findSpanLinearR p U Pw.length u) p i u * (ptsGet Pw i).getD d 0) :=
+  curvePointR_rational_eq_cdbSpan p U Pw u d j hU hP h1 h2 hwt hj
+
+/-- **With a non-empty last span the repaired evaluation IS the evaluation of the theorems above** (curves, surfaces,
+    volumes; every parameter of the closed domain; for curves also wherever the span found without step back is not
+    empty): every statement of this file about `curvePoint` / `surfacePoint` / `volumePoint` under `KnotsOk` is a statement
+    about the repaired code. -/
+theorem eval_repaired_eq_eval (pu pv pw : ℕ) (Uu Uv Uw : ℕ → K) (su sv sw : ℕ) (P : List (List K)) (u v w : K)
+    (hUu : KnotsOk pu Uu su) (hUv : KnotsOk pv Uv sv) (hUw : KnotsOk pw Uw sw)
+    (hu1 : Uu pu ≤ u) (hu2 : u ≤ Uu su) (hv1 : Uv pv ≤ v) (hv2 : v ≤ Uv sv) (hw1 : Uw pw ≤ w) (hw2 : w ≤ Uw sw) :
+    (su = P.length → curvePointR pu Uu P u = curvePoint pu Uu P u) ∧
+    surfacePointR pu pv Uu Uv su sv P u v = surfacePoint pu pv Uu Uv su sv P u v ∧
+    volumePointR pu pv pw Uu Uv Uw su sv sw P u v w = volumePoint pu pv pw Uu Uv Uw su sv sw P u v w :=
+  ⟨fun h => curvePointR_eq_curvePoint pu Uu P u (h ▸ hUu) hu1 (h ▸ hu2),
+   surfacePointR_eq_surfacePoint pu pv Uu Uv su sv P u v hUu hUv hu1 hu2 hv1 hv2,
+   volumePointR_eq_volumePoint pu pv pw Uu Uv Uw su sv sw P u v w hUu hUv hUw hu1 hu2 hv1 hv2 hw1 hw2⟩
+
+/-- **Surfaces, closed domain, every valid knot vectors** (per direction `DomOk`): the evaluated point is the tensor-product
+    sum with the recursions of the spans the repaired search finds (non-empty, containing the parameter:
+    `C03.findSpanLinearR_spec` per direction), and the Cox–de Boor tensor sum below the domain ends. -/
+theorem surface_eval_repaired_closed (pu pv d : ℕ) (Uu Uv : ℕ → K) (su sv : ℕ) (P : List (List K))
+    (hUu : DomOk pu Uu su) (hUv : DomOk pv Uv sv) (hlen : P.length = su * sv) (hP : NetOk d P) (u v : K) (j : ℕ) :
+    (surfacePointR pu pv Uu Uv su sv P u v).getD j 0
+      = ∑ a ∈ range su, ∑ b ∈ range sv,
+          cdbSpan Uu (findSpanLinearR pu Uu su u) pu a u * cdbSpan Uv (findSpanLinearR pv Uv sv v) pv b v *
+            (ptsGet P (b + sv * a)).getD j 0 ∧
+    (Uu pu ≤ u → u < Uu su → Uv pv ≤ v → v < Uv sv →
+      (surfacePointR pu pv Uu Uv su sv P u v).getD j 0
+        = ∑ a ∈ range su, ∑ b ∈ range sv, cdb Uu pu a u * cdb Uv pv b v * (ptsGet P (b + sv * a)).getD j 0) :=
+  ⟨surfacePointR_eq_cdbSpan pu pv Uu Uv su sv P u v d j hUu.pn hUv.pn hlen hP,
+   fun hu1 hu2 hv1 hv2 => surfacePointR_eq_cdb pu pv Uu Uv su sv P u v d j hUu.mono hUv.mono hUu.pn hUv.pn hlen hP
+     hu1 hu2 hv1 hv2⟩
+
+/-- **Rational surfaces, closed domain, every valid knot vectors**: positive weight, projected point = quotient of the sums. -/
+theorem rational_surface_eval_repaired_closed (pu pv d : ℕ) (Uu Uv : ℕ → K) (su sv : ℕ) (Pw : List (List K))
+    (hUu : DomOk pu Uu su) (hUv : DomOk pv Uv sv) (hlen : Pw.length = su * sv) (hP : NetOk (d+1) Pw)
+    (hwt : ∀ i, i < Pw.length → 0 < (ptsGet Pw i).getD d 0) (u v : K)
+    (hu1 : Uu pu ≤ u) (hu2 : u ≤ Uu su) (hv1 : Uv pv ≤ v) (hv2 : v ≤ Uv sv) (j : ℕ) (hj : j < d) :
+    0 < (surfacePointR pu pv Uu Uv su sv Pw u v).getD d 0 ∧
+    (project (surfacePointR pu pv Uu Uv su sv Pw u v)).getD j 0
+      = (∑ a ∈ range su, ∑ b ∈ range sv,
+          cdbSpan Uu (findSpanLinearR pu Uu su u) pu a u * cdbSpan Uv (findSpanLinearR pv Uv sv v) pv b v *
+            (ptsGet Pw (b + sv * a)).getD j 0)
+        / (∑ a ∈ range su, ∑ b ∈ range sv,
+          cdbSpan Uu (findSpanLinearR pu Uu su u) pu a u * cdbSpan Uv (findSpanLinearR pv Uv sv v) pv b v *
+            (ptsGet Pw (b + sv * a)).getD d 0) :=
+  surfacePointR_rational_eq_cdbSpan pu pv Uu Uv su sv Pw u v d j hUu hUv hlen hP hu1 hu2 hv1 hv2 hwt hj
+
+/-- **Volumes, closed domain, every valid knot vectors**: triple tensor-product sum with the recursions of the spans the
+    repaired search finds; the Cox–de Boor sum below the domain ends. -/
+theorem volume_eval_repaired_closed (pu pv pw d : ℕ) (Uu Uv Uw : ℕ → K) (su sv sw : ℕ) (P : List (List K))
+    (hUu : DomOk pu Uu su) (hUv : DomOk pv Uv sv) (hUw : DomOk pw Uw sw) (hlen : P.length = su * sv * sw) (hP : NetOk d P)
+    (u v w : K) (j : ℕ) :
+    (volumePointR pu pv pw Uu Uv Uw su sv sw P u v w).getD j 0
+      = ∑ a ∈ range su, ∑ b ∈ range sv, ∑ c ∈ range sw,
+          cdbSpan Uu (findSpanLinearR pu Uu su u) pu a u * cdbSpan Uv (findSpanLinearR pv Uv sv v) pv b v *
+            cdbSpan Uw (findSpanLinearR pw Uw sw w) pw c w * (ptsGet P (b + sv * (a + su * c))).getD j 0 ∧
+    (Uu pu ≤ u → u < Uu su → Uv pv ≤ v → v < Uv sv → Uw pw ≤ w → w < Uw sw →
+      (volumePointR pu pv pw Uu Uv Uw su sv sw P u v w).getD j 0
+        = ∑ a ∈ range su, ∑ b ∈ range sv, ∑ c ∈ range sw,
+            cdb Uu pu a u * cdb Uv pv b v * cdb Uw pw c w * (ptsGet P (b + sv * (a + su * c))).getD j 0) :=
+  ⟨volumePointR_eq_cdbSpan pu pv pw Uu Uv Uw su sv sw P u v w d j hUu.pn hUv.pn hUw.pn hlen hP,
+   fun hu1 hu2 hv1 hv2 hw1 hw2 => volumePointR_eq_cdb pu pv pw Uu Uv Uw su sv sw P u v w d j hUu.mono hUv.mono hUw.mono
+     hUu.pn hUv.pn hUw.pn hlen hP hu1 hu2 hv1 hv2 hw1 hw2⟩
+
+/-- **Rational volumes, closed domain, every valid knot vectors**: positive weight, projected point = quotient of the sums. -/
+theorem rational_volume_eval_repaired_closed (pu pv pw d : ℕ) (Uu Uv Uw : ℕ → K) (su sv sw : ℕ) (Pw : List (List K))
+    (hUu : DomOk pu Uu su) (hUv : DomOk pv Uv sv) (hUw : DomOk pw Uw sw) (hlen : Pw.length = su * sv * sw)
+    (hP : NetOk (d+1) Pw) (hwt : ∀ i, i < Pw.length → 0 < (ptsGet Pw i).getD d 0)
+    (u v w : K) (hu1 : Uu pu ≤ u) (hu2 : u ≤ Uu su) (hv1 : Uv pv ≤ v) (hv2 : v ≤ Uv sv)
+    (hw1 : Uw pw ≤ w) (hw2 : w ≤ Uw sw) (j : ℕ) (hj : j < d) :
+    0 < (volumePointR pu pv pw Uu Uv Uw su sv sw Pw u v w).getD d 0 ∧
+    (project (volumePointR pu pv pw Uu Uv Uw su sv sw Pw u v w)).getD j 0
+      = (∑ a ∈ range su, ∑ b ∈ range sv, ∑ c ∈ range sw,
+          cdbSpan Uu (findSpanLinearR pu Uu su u) pu a u * cdbSpan Uv (findSpanLinearR pv Uv sv v) pv b v *
+            cdbSpan Uw (findSpanLinearR pw Uw sw w) pw c w * (ptsGet Pw (b + sv * (a + su * c))).getD j 0)
+        / (∑ a ∈ range su, ∑ b ∈ range sv, ∑ c ∈ range sw,
+          cdbSpan Uu (findSpanLinearR pu Uu su u) pu a u * cdbSpan Uv (findSpanLinearR pv Uv sv v) pv b v *
+            cdbSpan Uw (findSpanLinearR pw Uw sw w) pw c w * (ptsGet Pw (b + sv * (a + su * c))).getD d 0) :=
+  volumePointR_rational_eq_cdbSpan pu pv pw Uu Uv Uw su sv sw Pw u v w d j hUu hUv hUw hlen hP hu1 hu2 hv1 hv2 hw1 hw2 hwt hj
+
+/-- **The repaired evaluation at the end of a domain with an empty last span** (closed witnesses).
+    (1) The input of `span_found_empty_without_knotsOk`: degree 2, `U = [0,0,1,2,4,4,5,5]` (unclamped, double knot on the
+    domain end), 5 control points, `u = 4 = U_5`: the repaired search finds span 3 = `[2, 4]`, the evaluated point is
+    `(3, 1)` (the fourth control point: the double knot makes the curve pass through it), the basis values of span 3 at
+    `u = 4` are `0, 0, 0, 1, 0` – here also the values of the right-continuous Cox–de Boor functions, which are continuous
+    at a knot of multiplicity `p` –; the evaluation without step back "returns" `(0, 0)` from a division by zero.
+    (2) An end knot repeated `p + 2` times, `U = [0,0,0,1/2,1,1,1,1]`, `u = 1`: the repaired search finds span 3 =
+    `[1/2, 1]`, the point is the fourth control point, the basis values of span 3 are `0, 0, 0, 1, 0` whereas the
+    right-continuous Cox–de Boor functions all vanish at `U_5 = 1`: the left-limit convention is what the repaired code
+    implements.  Strictly inside the domain both evaluations agree.
+    (Closed witness check: a statement about these concrete inputs, decided by evaluation.) -/
+theorem curve_eval_repaired_witness_F01b :
+    findSpanLinearR 2 (fnOf ([0,0,1,2,4,4,5,5] : List ℚ)) 5 4 = 3 ∧
+    curvePointR 2 (fnOf ([0,0,1,2,4,4,5,5] : List ℚ)) [[0,0],[1,1],[2,0],[3,1],[4,0]] 4 = [3, 1] ∧
+    (List.range 5).map (fun i => cdbSpan (fnOf ([0,0,1,2,4,4,5,5] : List ℚ)) 3 2 i 4) = [0, 0, 0, 1, 0] ∧
+    (List.range 5).map (fun i => cdb (fnOf ([0,0,1,2,4,4,5,5] : List ℚ)) 2 i 4) = [0, 0, 0, 1, 0] ∧
+    curvePoint 2 (fnOf ([0,0,1,2,4,4,5,5] : List ℚ)) [[0,0],[1,1],[2,0],[3,1],[4,0]] 4 = [0, 0] ∧
+    curvePointR 2 (fnOf ([0,0,1,2,4,4,5,5] : List ℚ)) [[0,0],[1,1],[2,0],[3,1],[4,0]] (39/10)
+      = curvePoint 2 (fnOf ([0,0,1,2,4,4,5,5] : List ℚ)) [[0,0],[1,1],[2,0],[3,1],[4,0]] (39/10) ∧
+    findSpanLinearR 2 (fnOf ([0,0,0,1/2,1,1,1,1] : List ℚ)) 5 1 = 3 ∧
+    curvePointR 2 (fnOf ([0,0,0,1/2,1,1,1,1] : List ℚ)) [[0,0],[1,1],[2,0],[3,1],[4,0]] 1 = [3, 1] ∧
+    (List.range 5).map (fun i => cdbSpan (fnOf ([0,0,0,1/2,1,1,1,1] : List ℚ)) 3 2 i 1) = [0, 0, 0, 1, 0] ∧
+    (List.range 5).map (fun i => cdb (fnOf ([0,0,0,1/2,1,1,1,1] : List ℚ)) 2 i 1) = [0, 0, 0, 0, 0] := by
+  decide +kernel
+
+/-- non-vacuity of the `DomOk` hypotheses: that knot vector (empty last domain span) with 5 planar control points -/
+example : DomOk 2 (fnOf ([0,0,1,2,4,4,5,5] : List ℚ)) ([[0,0],[1,1],[2,0],[3,1],[4,0]] : List (List ℚ)).length ∧
+    NetOk 2 ([[0,0],[1,1],[2,0],[3,1],[4,0]] : List (List ℚ)) ∧
+    fnOf ([0,0,1,2,4,4,5,5] : List ℚ) 2 ≤ 4 ∧
+    (4:ℚ) ≤ fnOf ([0,0,1,2,4,4,5,5] : List ℚ) ([[0,0],[1,1],[2,0],[3,1],[4,0]] : List (List ℚ)).length :=
+  ⟨⟨mono_of_pairwise _ (by decide +kernel), by decide, by decide +kernel⟩,
+   by intro pt hpt; simp at hpt; rcases hpt with h | h | h | h | h <;> simp [h], by decide +kernel, by decide +kernel⟩
 
 end C01
